@@ -347,7 +347,7 @@ def run(ctx):
     rng = random.Random(ctx.seed * 47 + 20)
     if q and len(beh) > 500:
         beh = rng.sample(beh, 500)
-    specs = [{"id": "o%d" % i, "evs": h, "qty0": 2 if i < len(beh) else 3, "root": rng.choice(["r", "ord1", "a--b"]), "unit": rng.choice([1, 10, 100]),
+    specs = [{"id": "o%d" % i, "evs": h, "qty0": 2 if i < len(beh) else 3, "root": rng.choice(["r", "ord1", "a--b", "book--3--leg"]), "unit": rng.choice([1, 10, 100]),
               "seed": rng.randint(0, 10 ** 6), "grid": 3 if q else 8} for i, h in enumerate(beh + simb)]
     ctx.log("(a) %d order histories (reachable order states of OrderLife) x helper-fabricated reports + argument grid" % len(specs))
     recs = pmap(execute, specs) + [session_factories(None)]
